@@ -35,7 +35,13 @@ import (
 
 type c03Fault struct {
 	// clean | drop-data | delay-data | dup-data | delay-close | drop-close | dup-close |
-	// drop-data+drop-close | latency
+	// drop-data+drop-close | latency |
+	// stall      (UDP) from the moment Close() is called nothing is delivered in either direction for
+	//            DelayMs, then everything, in order (a delay spike on a path that was fast before);
+	// tcp-stall  (TCP) the closing direction of the connection makes no progress until DelayMs after
+	//            Close() was called (a peer that stopped draining its receive buffer for a while);
+	// idle       (UDP) every transmission of data segment Seq and every close request of the closing
+	//            direction is lost, for ever: the reader hears nothing any more
 	Kind    string `json:"kind"`
 	Seq     int    `json:"seq"`      // sequence number (closing direction) whose FIRST transmission is hit
 	DelayMs int    `json:"delay_ms"` // for delay-* and latency
@@ -52,29 +58,39 @@ type c03Case struct {
 	Fault         c03Fault        `json:"fault"`
 	MaxRead       int             `json:"max_read"`
 	BoundMs       int             `json:"bound_ms"`
+	// Warm > 0: the first Warm bytes of d are written first and the writer pauses 150 ms (the path gets
+	// round-trip samples, the congestion window opens) before it writes the rest and closes
+	Warm int `json:"warm,omitempty"`
+	// CloseAfterFault: Close() is called as soon as the addressed datagram has been emitted and hit by
+	// the fault (at most 200 ms after Write returned) instead of immediately — the datagram is in flight
+	// at Close time
+	CloseAfterFault bool `json:"close_after_fault,omitempty"`
 }
 
 type c03Outcome struct {
-	Setup      string
-	Got        int
-	Mismatch   int    // -1 = none
-	Final      string // EOF | blocked | err:<text> | no-session
-	Written    int
-	WriteErr   string
-	CloseErr   string
-	closeCall  int // len(Net.Datagrams) when Close() was called / returned (UDP)
-	closeRet   int
-	closeRetAt time.Duration
-	closeTook  time.Duration
-	elapsed    time.Duration
-	world      *sim.World
+	Setup       string
+	Got         int
+	Mismatch    int    // -1 = none
+	Final       string // EOF | blocked | err:<text> | no-session
+	Written     int
+	WriteErr    string
+	CloseErr    string
+	closeCall   int // len(Net.Datagrams) when Close() was called / returned (UDP)
+	closeRet    int
+	closeRetAt  time.Duration
+	closeCallAt time.Duration
+	finalAt     time.Duration // when the reader saw EOF / its error
+	tap         *c03StreamTap
+	closeTook   time.Duration
+	elapsed     time.Duration
+	world       *sim.World
 }
 
 const c03ServerAddr = "10.8.0.1:8964"
 
 // c03Plan builds the fault plan. It decodes every datagram of the closing direction with the
 // reference codec to find the addressed segment.
-func c03Plan(k c03Case, keys [][]byte, line *c03DelayLine, closeReturned *atomic.Bool) func(d *simnet.Datagram) []simnet.Delivery {
+func c03Plan(k c03Case, keys [][]byte, line *c03DelayLine, closeReturned *atomic.Bool, closeAt *atomic.Int64, faultHit *atomic.Bool) func(d *simnet.Datagram) []simnet.Delivery {
 	var mu sync.Mutex
 	seenSeq := map[uint32]bool{}
 	closeSeen := 0
@@ -92,6 +108,21 @@ func c03Plan(k c03Case, keys [][]byte, line *c03DelayLine, closeReturned *atomic
 			line.push(d, delay)
 			return nil
 		}
+		if f.Kind == "stall" {
+			// nothing is delivered from the moment Close() is called until `delay` later; from then on
+			// everything goes through the FIFO line so that nothing overtakes what was held back
+			ca := closeAt.Load()
+			if ca == 0 {
+				return []simnet.Delivery{{}}
+			}
+			d.Fate = "stall"
+			wait := time.Until(time.Unix(0, ca).Add(delay))
+			if wait < 0 {
+				wait = 0
+			}
+			line.push(d, wait)
+			return nil
+		}
 		c2s := d.To == c03ServerAddr
 		if c2s == k.ServerCloses { // not the closing direction
 			return []simnet.Delivery{{}}
@@ -101,8 +132,17 @@ func c03Plan(k c03Case, keys [][]byte, line *c03DelayLine, closeReturned *atomic
 			return []simnet.Delivery{{}}
 		}
 		numbered := seg.IsData() || seg.Proto == wire.OpenSessionRequest || seg.Proto == wire.OpenSessionResponse
+		if f.Kind == "idle" {
+			if (numbered && int(seg.Seq) == f.Seq) || seg.Proto == wire.CloseSessionRequest {
+				d.Fate = "drop"
+				faultHit.Store(true)
+				return nil
+			}
+			return []simnet.Delivery{{}}
+		}
 		if numbered && int(seg.Seq) == f.Seq && !seenSeq[seg.Seq] {
 			seenSeq[seg.Seq] = true
+			faultHit.Store(true)
 			switch f.Kind {
 			case "drop-data", "drop-data+drop-close":
 				d.Fate = "drop"
@@ -205,11 +245,16 @@ func c03Exec(k c03Case) *c03Outcome {
 		return o
 	}
 	o.world = w
-	var closeReturned atomic.Bool
+	var closeReturned, faultHit atomic.Bool
+	var closeAt atomic.Int64
 	if k.UDP && k.Fault.Kind != "clean" && k.Fault.Kind != "" {
 		line := newC03DelayLine(w.Net)
 		defer line.stop()
-		w.Net.Plan = c03Plan(k, w.AllKeys(), line, &closeReturned)
+		w.Net.Plan = c03Plan(k, w.AllKeys(), line, &closeReturned, &closeAt, &faultHit)
+	}
+	if !k.UDP {
+		o.tap = newC03StreamTap(w.Net.T0(), !k.ServerCloses, k.Fault.Kind == "tcp-stall")
+		w.Net.StreamFilter = o.tap.filter
 	}
 	bound := time.Duration(k.BoundMs) * time.Millisecond
 	if bound <= 0 {
@@ -245,13 +290,35 @@ func c03Exec(k c03Case) *c03Outcome {
 
 	// writeAndClose is what the closing application does
 	writeAndClose := func(conn net.Conn) {
-		n, err := conn.Write(data)
-		o.Written = n
+		rest := data
+		if k.Warm > 0 && k.Warm < len(data) {
+			n, err := conn.Write(data[:k.Warm])
+			o.Written = n
+			if err != nil {
+				o.WriteErr = err.Error()
+				return
+			}
+			time.Sleep(150 * time.Millisecond)
+			rest = data[k.Warm:]
+		}
+		n, err := conn.Write(rest)
+		o.Written += n
 		if err != nil {
 			o.WriteErr = err.Error()
 		}
+		if k.CloseAfterFault {
+			for dl := time.Now().Add(200 * time.Millisecond); !faultHit.Load() && time.Now().Before(dl); {
+				time.Sleep(200 * time.Microsecond)
+			}
+		}
 		o.closeCall = nDatagrams()
 		tc := time.Now()
+		o.closeCallAt = tc.Sub(w.Net.T0())
+		closeAt.Store(tc.UnixNano())
+		if o.tap != nil {
+			delay := time.Duration(k.Fault.DelayMs) * time.Millisecond
+			o.tap.closeCalled(delay)
+		}
 		if err := conn.Close(); err != nil {
 			o.CloseErr = err.Error()
 		}
@@ -264,6 +331,7 @@ func c03Exec(k c03Case) *c03Outcome {
 	type rres struct {
 		got, mismatch int
 		final         string
+		at            time.Duration
 	}
 	readAll := func(conn net.Conn, skip int, out chan<- rres) {
 		r := rres{mismatch: -1}
@@ -292,6 +360,7 @@ func c03Exec(k c03Case) *c03Outcome {
 				} else {
 					r.final = "err:" + err.Error()
 				}
+				r.at = time.Since(w.Net.T0())
 				out <- r
 				return
 			}
@@ -350,7 +419,7 @@ func c03Exec(k c03Case) *c03Outcome {
 	}
 	select {
 	case r := <-res:
-		o.Got, o.Mismatch, o.Final = r.got, r.mismatch, r.final
+		o.Got, o.Mismatch, o.Final, o.finalAt = r.got, r.mismatch, r.final, r.at
 	case <-time.After(bound):
 		// reader still blocked after the bound: unblock it, keep what it had read
 		readerConn.Close()
@@ -380,6 +449,11 @@ type c03Wire struct {
 	Retransmits  int
 	LateData     int // data emissions later than 50 ms after Close() returned
 	CloseEmitted int
+	// loss recovery before the close request: the lowest lost sequence number, how often it had been
+	// transmitted when the first close request was emitted, and how many HIGHER sequence numbers were
+	// transmitted for the first time after its first transmission and before that close request
+	LostSeq, LostTx, LaterFirstTx int
+	ReaderIdleMs                  int64 // reader's EOF minus the last datagram handed to its endpoint
 }
 
 func c03AnalyseUDP(k c03Case, o *c03Outcome) *c03Wire {
@@ -401,6 +475,9 @@ func c03AnalyseUDP(k c03Case, o *c03Outcome) *c03Wire {
 	handed := map[uint32]bool{}
 	closeHandedOrder := -1
 	maxSeq := -1
+	txBeforeClose := map[uint32]int{}
+	firstTxIdx := map[uint32]int{}
+	firstCloseIdx := -1
 	for i, d := range ds {
 		seg, err := wire.OpenUDP(d.Data, keys)
 		if err != nil {
@@ -412,8 +489,12 @@ func c03AnalyseUDP(k c03Case, o *c03Outcome) *c03Wire {
 			numbered := seg.IsData() || seg.Proto == wire.OpenSessionRequest || seg.Proto == wire.OpenSessionResponse
 			if numbered {
 				dg := c03Digest(seg)
+				if firstCloseIdx < 0 {
+					txBeforeClose[seg.Seq]++
+				}
 				if _, ok := first[seg.Seq]; !ok {
 					first[seg.Seq] = dg
+					firstTxIdx[seg.Seq] = i
 					lens[seg.Seq] = len(seg.Payload)
 					if int(seg.Seq) > maxSeq {
 						maxSeq = int(seg.Seq)
@@ -427,13 +508,24 @@ func c03AnalyseUDP(k c03Case, o *c03Outcome) *c03Wire {
 				items = append(items, item{ord, fmt.Sprintf("s:%d:%d", seg.Seq, dg)})
 			} else if seg.Proto == wire.CloseSessionRequest {
 				a.CloseEmitted++
-				items = append(items, item{ord, "cs"})
+				if firstCloseIdx < 0 {
+					firstCloseIdx = i
+				}
+				ms := int64(0)
+				if d.At > o.closeCallAt {
+					ms = (d.At - o.closeCallAt).Milliseconds()
+				}
+				items = append(items, item{ord, fmt.Sprintf("cs:%d", ms)})
 			}
 		} else if seg.IsData() || seg.IsAck() {
 			items = append(items, item{ord, fmt.Sprintf("a:%d", seg.UnAck)})
 		}
 	}
+	var lastToReader time.Duration
 	for _, e := range evs {
+		if closing(e.To) && e.At > lastToReader && (o.finalAt == 0 || e.At <= o.finalAt) {
+			lastToReader = e.At
+		}
 		seg, err := wire.OpenUDP(e.Data, keys)
 		if err != nil {
 			continue
@@ -490,6 +582,21 @@ func c03AnalyseUDP(k c03Case, o *c03Outcome) *c03Wire {
 		if closeHandedOrder >= 0 && !handed[uint32(s)] {
 			a.LostBefore = append(a.LostBefore, s)
 		}
+	}
+	a.LostSeq = -1
+	if len(a.LostBefore) > 0 && firstCloseIdx >= 0 {
+		a.LostSeq = a.LostBefore[0]
+		a.LostTx = txBeforeClose[uint32(a.LostSeq)]
+		for sq, idx := range firstTxIdx {
+			if int(sq) > a.LostSeq && idx > firstTxIdx[uint32(a.LostSeq)] && idx < firstCloseIdx {
+				a.LaterFirstTx++
+			}
+		}
+	}
+	if o.Final == "EOF" && !a.CloseHanded && o.finalAt > 0 {
+		// the reader's session was closed although no close request / response ever reached it
+		a.ReaderIdleMs = (o.finalAt - lastToReader).Milliseconds()
+		a.Tokens = append(a.Tokens, fmt.Sprintf("lc:%d", a.ReaderIdleMs))
 	}
 	return a
 }
@@ -558,6 +665,18 @@ func c03Run(c *core.Ctx, k c03Case) {
 		detail := ""
 		if k.UDP {
 			switch {
+			case !wa.CloseHanded:
+				fk = "C03/udp/reader-closed-without-close-request"
+				if wa.ReaderIdleMs >= 59000 {
+					fk = "C03/udp/reader-idle-timeout-clean-eof"
+				}
+				detail = fmt.Sprintf("; no close request or response ever reached the reader's endpoint: its session was closed locally %d ms after the last datagram it was handed (idleSessionTimeout = 60 s → RemoveSession → graceful s.Close()), and Read reported a clean io.EOF", wa.ReaderIdleMs)
+			case len(wa.LostBefore) > 0 && wa.LostTx <= 1 && wa.LaterFirstTx >= 2*(16+wa.LostSeq)+16:
+				// the sender cannot have more than cwnd ≤ minWindowSize + (segments acknowledged so far)
+				// segments outstanding: with an unacknowledged segment s it stalls after at most 15 + s
+				// further first transmissions until s has been retransmitted and acknowledged
+				fk = "C03/udp/lost-data-not-retransmitted-while-sending"
+				detail = fmt.Sprintf("; segment %d was lost on its first transmission and never retransmitted although %d later segments were transmitted for the first time before the close request went out (a sender with that segment unacknowledged stalls after at most %d)", wa.LostSeq, wa.LaterFirstTx, 15+wa.LostSeq)
 			case len(wa.LostBefore) > 0:
 				fk = "C03/udp/data-lost-or-overtaken-before-close"
 				detail = fmt.Sprintf("; segments %v of the closing direction were transmitted but had not reached the reader when the close request did", wa.LostBefore)
@@ -619,6 +738,27 @@ func c03Run(c *core.Ctx, k c03Case) {
 		c.Compared()
 		reply := c.Model.Ask("close-tcp %s R:%d:%s:%d", strings.Join(toks, " "), o.Got, final, k.N)
 		c03Compare(c, k, reply, violated, "tcp")
+		// the writer's side: application calls and wire emissions with their times, through the
+		// writer acceptor (Model/CloseWriter.waccept; Props/C03.writer_history_sound)
+		wtoks, wproblems := c03WriterTokens(k, o)
+		for _, p := range wproblems {
+			c.Disagree("C03/corr/wire-undecodable", p, k)
+		}
+		c.Compared()
+		wreply := c.Model.Ask("close-tcpw %s", strings.Join(wtoks, " "))
+		wf := strings.Fields(wreply)
+		switch {
+		case len(wf) < 4 || wf[0] != "ok":
+			c.Disagree("C03/corr/tcp-writer-history-rejected", "the writer model rejects the observed history of Write / Close / wire emissions: "+wreply+" ("+strings.Join(wtoks, " ")+")", k)
+		case wf[1] == "1" && wf[2] != "1":
+			c.Disagree("C03/corr/tcp-writer-wire-order", "the writer acceptor stayed inside its scheduling assumption but the wire is not `fragments, close request, …` — contradicts Props/C03.writer_history_sound: "+wreply, k)
+		case wf[1] != "1":
+			c.Hist("model_assumption_broken", "sched")
+			c.Disagree("C03/corr/tcp-forced-close-overtook-queued-data", "the close request was written directly (bounded wait expired) while data of the session was still queued; with oLock held across the whole drain (Props/C03.close_lock_scope) that needs an output loop that did not run for the whole wait: "+wreply+" ("+strings.Join(wtoks, " ")+")", k)
+		}
+		if o.tap != nil && k.Fault.Kind == "tcp-stall" && !o.tap.stalledOnce.Load() {
+			c.Hist("branch", "tcp-stall-never-blocked")
+		}
 	}
 }
 
@@ -689,7 +829,7 @@ func c03FragmentSize(mtu int, udp bool) int {
 
 func genC03(r *rand.Rand, thorough bool) []c03Case {
 	var cases []c03Case
-	mk := func(udp, serverCloses bool, n int, f c03Fault) {
+	mk := func(udp, serverCloses bool, n int, f c03Fault) *c03Case {
 		k := c03Case{Seed: r.Int63(), UDP: udp, MTU: 1400, N: n, ServerCloses: serverCloses, Fault: f,
 			MaxRead: []int{1, 13, 1500, 65536}[r.Intn(4)], BoundMs: 20000}
 		if udp {
@@ -703,6 +843,7 @@ func genC03(r *rand.Rand, thorough bool) []c03Case {
 			k.ServerPattern = patJSON(sim.RandomPattern(r, false))
 		}
 		cases = append(cases, k)
+		return &cases[len(cases)-1]
 	}
 	for _, udp := range []bool{false, true} {
 		frag := c03FragmentSize(1400, udp)
@@ -719,8 +860,42 @@ func genC03(r *rand.Rand, thorough bool) []c03Case {
 			}
 		}
 	}
-	// fault plans over the datagrams in flight at close (UDP)
-	reps := 1
+	// fault plans over the datagrams in flight at close (UDP). Deterministic boundaries first (every run):
+	// the first data-bearing sequence number, the second, the last but one and the last, for each of
+	// drop / delay (overtaken by the close request) / duplicate, in both directions.
+	for _, sc := range []bool{false, true} {
+		n := 10240
+		nseg := (n-1)/c03FragmentSize(1400, true) + 1 // data segments; seq 0 is the open request / response
+		for _, kind := range []string{"drop-data", "delay-data", "dup-data"} {
+			for _, seq := range []int{1, 2, nseg - 1, nseg} {
+				k := mk(true, sc, n, c03Fault{Kind: kind, Seq: seq, DelayMs: 60})
+				k.MTU = 1400
+			}
+		}
+		mk(true, sc, n, c03Fault{Kind: "delay-close", DelayMs: 60})
+		mk(true, sc, n, c03Fault{Kind: "dup-close"})
+		mk(true, sc, n, c03Fault{Kind: "drop-close"})
+		mk(true, sc, n, c03Fault{Kind: "drop-data+drop-close", Seq: nseg})
+		// a datagram lost IN FLIGHT at Close with several congestion windows of data queued behind it,
+		// on a path that has round-trip samples: the sender must retransmit it before its window lets
+		// the close request out
+		warm := 20 * c03FragmentSize(1400, true)
+		k := mk(true, sc, warm+200000, c03Fault{Kind: "drop-data", Seq: 20 + 3})
+		k.MTU, k.Warm, k.CloseAfterFault, k.MaxRead, k.ClientPattern, k.ServerPattern = 1400, warm, true, 65536, nil, nil
+		// a delay spike at Close on a path that was fast before, shorter than the bounded wait
+		k = mk(true, sc, warm+200000, c03Fault{Kind: "stall", DelayMs: 600})
+		k.MTU, k.Warm, k.MaxRead, k.ClientPattern, k.ServerPattern = 1400, warm, 65536, nil, nil
+	}
+	// stream transport: the connection makes no progress until 1.7 s after Close() (longer than the
+	// bounded wait) with the open request / response and the data still unsent; 1025 = smallest write that
+	// is not piggybacked on the open request, 32768 = one full segment, 32769 = two data segments
+	for _, sc := range []bool{false, true} {
+		for _, n := range []int{1025, 20000, 32769} {
+			k := mk(false, sc, n, c03Fault{Kind: "tcp-stall", DelayMs: 1700})
+			k.ClientPattern, k.ServerPattern = nil, nil
+		}
+	}
+	reps := 0
 	if thorough {
 		reps = 6
 	}
@@ -736,10 +911,14 @@ func genC03(r *rand.Rand, thorough bool) []c03Case {
 				mk(true, sc, n, c03Fault{Kind: "dup-close"})
 			}
 			mk(true, sc, 10240, c03Fault{Kind: "drop-close"})
-			if thorough || rep == 0 && !sc {
-				mk(true, sc, 10240, c03Fault{Kind: "drop-data+drop-close", Seq: 2 + r.Intn(5)})
-			}
+			mk(true, sc, 10240, c03Fault{Kind: "drop-data+drop-close", Seq: 2 + r.Intn(5)})
 		}
+	}
+	if thorough {
+		// the reader hears nothing any more (tail and every close request lost): after idleSessionTimeout
+		// (60 s, a constant of the code) its session is closed locally. One case, ~65 s.
+		k := mk(true, false, 10240, c03Fault{Kind: "idle", Seq: 5})
+		k.MTU, k.BoundMs = 1400, 80000
 	}
 	return cases
 }
